@@ -114,6 +114,8 @@ fn main() {
         AI::Decl { name: 0, payload: 0 },
         AI::Decl { name: 0, payload: 1 },
         AI::Decl { name: 1, payload: 0 },
+        // same type and length as payload 0, differs only in SHARING
+        AI::Decl { name: 0, payload: 4 },
         AI::Calib { sig: 0, payload: 0 },
         AI::Calib { sig: 0, payload: 1 },
         AI::Extern { name: None, payload: 0 },
@@ -156,7 +158,7 @@ fn main() {
     }
     run.finish(
         "instruction sequences added to an empty Program. Exhaustive part: every sequence up to the \
-         stated length over a 12-instruction alphabet (two DECLARE names with a redefinition, DEFCAL \
+         stated length over a 13-instruction alphabet (two DECLARE names with redefinitions differing in length and in SHARING only, DEFCAL \
          redefinition with different qubits, named and unnamed PRAGMA EXTERN with redefinitions, a \
          DEFCIRCUIT, a gate and a non-EXTERN pragma). Random part: seeded sequences with 2-4 \
          definitions of every kind. Non-trivial = contains a redefinition or a PRAGMA EXTERN.",
